@@ -59,19 +59,35 @@ def expand_rules(chk, db):
     for f in db.fns("TasGrid::GridLocalPolynomial::expandGrid"):
         chk.saw(f)
         nd3 += 1
+        loc = {v["did"]: v for v in f.locals().values() if "did" in v}
+
+        def init_call(v, suffix):
+            ini = [c for c in v.get("c", []) if isinstance(c, dict)]
+            return next((q for q in walk(ini[0]) if (callee(q) or "").endswith(suffix)), None) if ini else None
+        graph = next(((d, init_call(v, "::getSubGraph")) for d, v in loc.items() if init_call(v, "::getSubGraph") is not None), None)
+        slot = next(((d, init_call(v, "::getSlot")) for d, v in loc.items() if v.get("t") == "int" and init_call(v, "::getSlot") is not None
+                     and txt(strip(call_object(init_call(v, "::getSlot")))) == "points"), None)
         ins = [c for c in f.calls() if (callee(c) or "").endswith("::addSortedIndexes") and txt(strip(call_object(c))) == "points"]
-        shift = [n for n in f.walk() if n.get("k") == "UnaryOperator" and n.get("op") == "++" and txt(strip(n["c"][0])) == "g"]
         upd = [c for c in f.calls() if (callee(c) or "").endswith("::updateSurpluses")]
         tree = [c for c in f.calls() if (callee(c) or "").endswith("::buildTree")]
-        sub = [c for c in f.calls() if (callee(c) or "").endswith("::getSubGraph")]
-        ok = len(ins) == 1 and len(shift) == 1 and len(upd) >= 1 and bool(tree) and bool(sub)
-        detail = "insert %d, shift %d, update %d, buildTree %d, getSubGraph %d" % (len(ins), len(shift), len(upd), len(tree), len(sub))
+        # the shift: a range-for over the sub-graph by reference whose body increments the element under `element >= slot`
+        shift = None
+        for q in f.walk(into_lambda=False):
+            if q.get("k") == "CXXForRangeStmt" and graph and var_of(strip(q.get("range"))) == graph[0] and "&" in (q.get("lv") or {}).get("t", ""):
+                lv = q["lv"]["did"]
+                for x in walk(q.get("body")):
+                    if x.get("k") == "UnaryOperator" and x.get("op") == "++" and var_of(x["c"][0]) == lv:
+                        conds = [(strip(e), tr) for e, tr in cond_edges_dominating(f, x)]
+                        guarded = any(e.get("k") == "BinaryOperator" and e.get("op") == ">=" and tr and var_of(e["c"][0]) == lv and slot and var_of(e["c"][1]) == slot[0] for e, tr in conds) or \
+                            any(e.get("k") == "BinaryOperator" and e.get("op") == "<" and not tr and var_of(e["c"][0]) == lv and slot and var_of(e["c"][1]) == slot[0] for e, tr in conds)
+                        shift = (x, guarded, strip(q.get("range")))
+        ok = bool(graph and slot and len(ins) == 1 and upd and tree and shift)
+        detail = "sub-graph %s, slot %s, insert %d, shift %s, update %d, buildTree %d" % (bool(graph), bool(slot), len(ins), bool(shift), len(upd), len(tree))
         if ok:
-            ok = sub[0].get("l", 0) < ins[0].get("l", 0) < shift[0].get("l", 0) < upd[0].get("l", 0)
-            # the shift is guarded by g >= newindex
-            edges = [(txt(strip(c)), tr) for c, tr in cond_edges_dominating(f, shift[0])]
-            ok = ok and ("g >= newindex", True) in edges
-            detail += "; shift guard %s" % [e for e in edges if "newindex" in e[0]]
+            before = lambda a, b: bool(must_pass_before(f, b, lambda x, a=a: x is a or any(y is a for y in walk(x))))
+            order = before(graph[1], ins[0]) and before(ins[0], slot[1]) and before(slot[1], shift[0]) and before(shift[2], upd[0])
+            ok = order and shift[1]
+            detail += "; order sub-graph < insert < slot < shift < update: %s; shift guarded by element >= slot: %s" % (order, shift[1])
         chk.ob("C09-D3.expand", f.key, "sub-graph taken before, indices shifted after the insertion and before the update", ok, f.where, detail)
     for f in db.fns("TasGrid::GridSequence::expandGrid"):
         chk.saw(f)
@@ -351,8 +367,20 @@ def run(chk):
                 continue
             nd2 += 1
             chk.saw(f)
-            t = " ".join(txt(d) for d in f.locals().values() if d.get("name") == "new_points")
-            ok = "refine_candidates - dynamic_values->initial_points" in t
+            # some local set is the difference (operator-) of the collector's result and the member initial_points of the construction data
+            loc = {d["did"]: d for d in f.locals().values() if "did" in d}
+            from_collector = {did for did, d in loc.items() if any((callee(q) or "").endswith("::getRefinementCanidates") for c in d.get("c", []) if isinstance(c, dict) for q in walk(c))}
+            ok, t = False, ""
+            for did, d in loc.items():
+                for c in d.get("c", []):
+                    if not isinstance(c, dict):
+                        continue
+                    for q in walk(c):
+                        if q.get("k") == "CXXOperatorCallExpr" and q.get("op") == "-":
+                            ch = [x for x in q.get("c", []) if isinstance(x, dict)]
+                            lhs, rhs = strip(ch[-2]), strip(ch[-1])
+                            if var_of(lhs) in from_collector and any(short(x.get("field") or "") == "initial_points" for x in walk(rhs)):
+                                ok, t = True, txt(q)
             chk.ob("C09-D2.candidates", f.key + f.sig, "candidates = refinement candidates minus initial points", ok, f.where, t[:160])
 
     # ------------------------------------------------------------------ D3
